@@ -4,6 +4,7 @@
 mod common;
 mod sched;
 mod seq;
+mod stress;
 
 fn main() {
     let args: Vec<String> = std::env::args().collect();
@@ -14,6 +15,7 @@ fn main() {
     let code = match args[1].as_str() {
         "seq" => seq::main(&args[2..]),
         "sched" => sched::main(&args[2..]),
+        "stress" => stress::main(&args[2..]),
         other => {
             eprintln!("unknown subcommand {other}");
             2
